@@ -301,7 +301,7 @@ impl C08 {
             let depths = out.depths();
             judge_unlimited_depths(&what, &depths).map_err(|f| f.with_case(case(false)))?;
             if let Some(lat) = out.stop_latency_ms {
-                if lat > 2000 {
+                if lat > 5000 {
                     return Err(Fail::new("stop-ignored", format!("{} : returned {} ms after the stop flag was cleared", what, lat)).with_case(case(false)));
                 }
             }
@@ -340,7 +340,7 @@ impl C08 {
                     Err(f) => return Err(f.with_case(case(false))),
                 }
                 if let Some(lat) = o.stop_latency_ms {
-                    if lat > 2000 {
+                    if lat > 5000 {
                         return Err(Fail::new("stop-ignored", format!("{} : returned {} ms after the stop flag was cleared", what, lat)).with_case(case(false)));
                     }
                 }
@@ -533,7 +533,38 @@ impl Prop for C08 {
         .boxed()
     }
 
-    fn check(&self, _ctx: &Ctx, case: &TermCase, ev: &mut Ev) -> Result<(), Fail> {
+    fn enumerate(&self, ctx: &Ctx, ev: &mut Ev, report: &mut dyn FnMut(TermCase, Fail)) {
+        // curated cages and bare kings, both ways
+        let cages = [34usize, 35, 36, 37, 38, 39, 6, 9, 27];
+        let mut i = 0u64;
+        for &c in &cages {
+            for via_uci in [false, true] {
+                i += 1;
+                if !ctx.owns(i) {
+                    continue;
+                }
+                let case = TermCase::FenRun { fen: CURATED[c].to_string(), run_ms: 1200, via_uci };
+                if let Err(f) = Prop::check(self, ctx, &case, ev) {
+                    report(case, f);
+                    return;
+                }
+            }
+        }
+    }
+
+    fn confirm_in_fresh_process(&self) -> bool {
+        true
+    }
+
+    fn check(&self, ctx: &Ctx, case: &TermCase, ev: &mut Ev) -> Result<(), Fail> {
+        // symptoms that depend on the clock are re-checked from a fresh process; the others are decisive
+        const TIMING: &[&str] = &["stop-ignored", "engine-unresponsive-during-unlimited-search", "engine-does-not-exit-cleanly"];
+        self.check_inner(ctx, case, ev).map_err(|f| if TIMING.contains(&f.signature.as_str()) { f } else { f.decisive() })
+    }
+}
+
+impl C08 {
+    fn check_inner(&self, _ctx: &Ctx, case: &TermCase, ev: &mut Ev) -> Result<(), Fail> {
         match case {
             TermCase::History { start, lead_in, steps, via_uci } => self.history(start, lead_in, steps, *via_uci, ev),
             TermCase::TinyRun { tiny, run_ms, via_uci } => match tiny.build() {
@@ -548,25 +579,6 @@ impl Prop for C08 {
                 self.unlimited(&p, *run_ms as u64, *via_uci, ev)
             }
             TermCase::Script { lines } => self.script(lines, ev),
-        }
-    }
-
-    fn enumerate(&self, ctx: &Ctx, ev: &mut Ev, report: &mut dyn FnMut(TermCase, Fail)) {
-        // curated cages and bare kings, both ways
-        let cages = [34usize, 35, 36, 37, 38, 39, 6, 9, 27];
-        let mut i = 0u64;
-        for &c in &cages {
-            for via_uci in [false, true] {
-                i += 1;
-                if !ctx.owns(i) {
-                    continue;
-                }
-                let case = TermCase::FenRun { fen: CURATED[c].to_string(), run_ms: 1200, via_uci };
-                if let Err(f) = self.check(ctx, &case, ev) {
-                    report(case, f);
-                    return;
-                }
-            }
         }
     }
 }
